@@ -250,3 +250,11 @@ Theorem C01_brakedown_complete :
     l_check_bd G wf n_cols n_ext (map (mat_enc G n_ext) rows) point (ip (lf_v pf) a) pf r idx = Ok true.
 Proof. exact @brakedown_complete. Qed.
 Print Assumptions C01_brakedown_complete.
+
+(* several polynomials in one linear-code opening: the verifier's loop accepts every list of honestly opened items
+   (each with its own dimensions, encoder and part of the transcript) *)
+Theorem C01_lincode_multi_complete :
+  forall (FO : FieldOps) (FL : FieldLaws FO) wf items,
+    Forall (honest_item wf) items -> l_check_all wf items = Ok true.
+Proof. exact @l_check_all_complete. Qed.
+Print Assumptions C01_lincode_multi_complete.
